@@ -54,6 +54,18 @@ func (u *Universe) newExec(pkg *packages.Package, name string, r *Repr) *Exec {
 
 // verifyContractAll: one verification per specialisation of interface-typed parameters.
 func (u *Universe) verifyContractAll(c *Contract) []*FuncResult {
+	if len(c.SpecConsts) > 0 {
+		var out []*FuncResult
+		for name, vals := range c.SpecConsts {
+			for _, v := range vals {
+				specConstsNow = map[string]int64{name: v}
+				out = append(out, u.verifyContract(c, nil))
+			}
+			break
+		}
+		specConstsNow = nil
+		return out
+	}
 	if len(c.Specialize) == 0 {
 		return []*FuncResult{u.verifyContract(c, nil)}
 	}
@@ -72,6 +84,9 @@ func (u *Universe) verifyContract(c *Contract, variant map[string]string) (res *
 	name := shortPkg(c.PkgPath) + "." + c.Key
 	for _, t := range variant {
 		name += "[" + t + "]"
+	}
+	for k, v := range specConstsNow {
+		name += fmt.Sprintf("[%s=%d]", k, v)
 	}
 	res = &FuncResult{Name: name, Contract: c}
 	defer func() {
@@ -652,3 +667,6 @@ func (x *Exec) assumeTheories(st *State, theories []string) {
 		}
 	}
 }
+
+// specConstsNow: values of the `specialize NAME = ...` constants for the verification in progress.
+var specConstsNow map[string]int64
